@@ -275,14 +275,20 @@ def _profiles(IM, origin, rmax, order, odd, weights, verbose):
     if verbose:
         print('Extracting radial profiles...')
     prm = [IM.shape, origin, rmax, order, odd]
-    if _prm != prm or _weights is not weights:
+    # (weights are compared by content: the same array might have been changed
+    #  in place since the previous call)
+    if weights is None or _weights is None:
+        same_weights = weights is _weights
+    else:
+        same_weights = np.array_equal(_weights, weights)
+    if _prm != prm or not same_weights:
         dst = Distributions(origin=origin, rmax=rmax, order=order, odd=odd,
                             weights=weights, use_sin=False, method='linear')
         c = dst(IM).cos()
         # (cached only now: both lines above can raise for wrong parameters,
         #  and a half-initialized object must not be left in the cache)
         _prm = prm
-        _weights = weights
+        _weights = None if weights is None else np.array(weights, copy=True)
         _dst = dst
         if verbose:
             print('(new Distributions object created)')
